@@ -109,9 +109,9 @@ def c02_plan(tier, seed):
         j["opts"]["cpus"] = [1, 2, 0][j["batch"] % 3]
         j["opts"]["histories"] = 40 if tier == "quick" else 500
         out.append(j)
-    for j in jobs("inproc-debug", "c02", 2 if tier == "quick" else 6, None, timeout=900):
+    for j in jobs("inproc-debug", "c02", 6 if tier == "quick" else 12, None, timeout=900):
         j["opts"]["cpus"] = [0, 2][j["batch"] % 2]
-        j["opts"]["histories"] = 20 if tier == "quick" else 500
+        j["opts"]["histories"] = 60 if tier == "quick" else 500
         out.append(j)
     return out
 
